@@ -930,3 +930,192 @@ func cellValue(v ssa.Value) ssa.Value {
 	}
 	return v
 }
+
+// ---------- helper-transparent views (robustness against extract-helper refactorings) ----------
+
+// acctKind classifies a function of package cache as an accounting helper by
+// its effect on the process-wide cache metrics (never by its name):
+// addSize / subSize (BytesCached.Add / Sub) or incEntries / decEntries
+// (CacheEntries.Add|Increment / Sub|Decrement). "" if it is none.
+func acctKind(f *ssa.Function) string {
+	if f == nil || f.Blocks == nil || originPkgPath(f) != "reservoir/cache" {
+		return ""
+	}
+	kind := ""
+	n := 0
+	eachCall(f, func(call ssa.CallInstruction, name string) {
+		args := callArgs(call)
+		if len(args) == 0 {
+			return
+		}
+		_, p := fieldPath(args[0])
+		if len(p) < 2 {
+			return
+		}
+		fld := p[len(p)-1]
+		m := name[strings.LastIndex(name, ".")+1:]
+		switch {
+		case fld == "BytesCached" && m == "Add":
+			kind = "addSize"
+			n++
+		case fld == "BytesCached" && m == "Sub":
+			kind = "subSize"
+			n++
+		case fld == "CacheEntries" && (m == "Add" || m == "Increment"):
+			kind = "incEntries"
+			n++
+		case fld == "CacheEntries" && (m == "Sub" || m == "Decrement"):
+			kind = "decEntries"
+			n++
+		}
+	})
+	if n != 1 {
+		return ""
+	}
+	// a helper does nothing else of substance: no map operations, no locks
+	other := false
+	eachInstr(f, func(in ssa.Instruction) {
+		switch in.(type) {
+		case *ssa.MapUpdate, *ssa.Lookup:
+			other = true
+		}
+	})
+	if other {
+		return ""
+	}
+	return kind
+}
+
+// callKind: the accounting kind of a call instruction ("" if none).
+func callAcctKind(call ssa.CallInstruction) string {
+	if sc := staticCallee(call); sc != nil {
+		return acctKind(unwrapSynthetic(sc))
+	}
+	return ""
+}
+
+// factStrsCtx: the facts holding at site, plus the facts that hold at EVERY call
+// site of the enclosing function (transitively, bounded), translated into the
+// callee's vocabulary (caller argument expressions are rewritten to "$param").
+// This makes guard rules indifferent to extract-helper refactorings: a guard
+// established in the caller still counts for code moved into the helper.
+func factStrsCtx(li *LockInfo, fn *ssa.Function, site ssa.Instruction) map[string]bool {
+	return factStrsCtxD(li, fn, site, 0)
+}
+
+func factStrsCtxD(li *LockInfo, fn *ssa.Function, site ssa.Instruction, depth int) map[string]bool {
+	out := factStrs(fn, site)
+	if li == nil || depth >= 3 {
+		return out
+	}
+	// closures: the facts at their creation site in the parent hold if the closure is only
+	// invoked synchronously from there (range-over-func bodies); handled via Callers too.
+	cs := li.Callers[fn]
+	if len(cs) == 0 {
+		return out
+	}
+	var common map[string]bool
+	for _, s := range cs {
+		if s.isGo {
+			return out
+		}
+		cf := factStrsCtxD(li, s.caller, s.in, depth+1)
+		tr := map[string]bool{}
+		call, ok := asCall(s.in)
+		if !ok {
+			return out
+		}
+		args := callArgs(call)
+		type rep struct{ from, to string }
+		var reps []rep
+		for i, p := range fn.Params {
+			if i < len(args) {
+				a := atomStr(args[i])
+				if a != "" && a != "?" && a != "$"+p.Name() {
+					reps = append(reps, rep{a, "$" + p.Name()})
+				}
+			}
+		}
+		// longest first, so that "x.y" is rewritten before "x"
+		sort.Slice(reps, func(i, j int) bool { return len(reps[i].from) > len(reps[j].from) })
+		for k := range cf {
+			t := k
+			for _, rp := range reps {
+				t = replaceToken(t, rp.from, rp.to)
+			}
+			tr[t] = true
+		}
+		if common == nil {
+			common = tr
+		} else {
+			for k := range common {
+				if !tr[k] {
+					delete(common, k)
+				}
+			}
+		}
+	}
+	for k := range common {
+		out[k] = true
+	}
+	return out
+}
+
+// replaceToken replaces occurrences of from in s that are not part of a longer identifier.
+func replaceToken(s, from, to string) string {
+	if from == "" {
+		return s
+	}
+	var b strings.Builder
+	for {
+		i := strings.Index(s, from)
+		if i < 0 {
+			b.WriteString(s)
+			return b.String()
+		}
+		end := i + len(from)
+		okL := i == 0 || !isIdentChar(s[i-1])
+		okR := end >= len(s) || !isIdentChar(s[end])
+		b.WriteString(s[:i])
+		if okL && okR {
+			b.WriteString(to)
+		} else {
+			b.WriteString(from)
+		}
+		s = s[end:]
+	}
+}
+
+func isIdentChar(c byte) bool {
+	return c == '_' || c == '$' || (c >= '0' && c <= '9') || (c >= 'a' && c <= 'z') || (c >= 'A' && c <= 'Z')
+}
+
+// pkgGroup: fn, its closures, and the same-package functions it reaches through
+// static calls (transitively): the code a maintainer may have split fn into.
+func pkgGroup(li *LockInfo, roots ...*ssa.Function) []*ssa.Function {
+	seen := map[*ssa.Function]bool{}
+	var out []*ssa.Function
+	var visit func(f *ssa.Function, d int)
+	visit = func(f *ssa.Function, d int) {
+		if f == nil || seen[f] || f.Blocks == nil || d > 4 {
+			return
+		}
+		seen[f] = true
+		out = append(out, f)
+		for _, a := range f.AnonFuncs {
+			visit(a, d)
+		}
+		eachCall(f, func(call ssa.CallInstruction, _ string) {
+			if sc := staticCallee(call); sc != nil {
+				g := unwrapSynthetic(sc)
+				if g != nil && originPkgPath(g) == originPkgPath(roots[0]) {
+					visit(g, d+1)
+				}
+			}
+		})
+	}
+	for _, r := range roots {
+		visit(r, 0)
+	}
+	return out
+}
